@@ -39,8 +39,24 @@ def budget(tier):
     return 1000 if tier == "quick" else 10000
 
 
+def gated_core(rng, prefix):
+    """a motif-avoidant core one of whose functions is gated by a switch that the core feeds back into: one strongly
+    connected component whose own diagram has the motif-avoidant attractor in a *nested* trap space (switch on)"""
+    c = rng.choice([x for x in common.cores()["maa"] if x["n"] == 3])
+    cn = [f"{prefix}{i}" for i in range(3)]
+    f = [common.tt_to_expr(3, c["tt"][i], cn) for i in range(3)]
+    k, j = rng.randrange(3), rng.randrange(3)
+    x, y = f"{prefix}x", f"{prefix}y"
+    f[k] = f"({f[k]}) & {x}" if rng.random() < 0.7 else f"({f[k]}) | !{x}"
+    lines = [f"{cn[i]}, {f[i]}" for i in range(3)]
+    lines += [f"{x}, {y}", f"{y}, {x} | {cn[j]}" if rng.random() < 0.7 else f"{y}, {x} & {cn[j]}"]
+    return "\n".join(lines)
+
+
 def small_net(rng, prefix):
     r = rng.random()
+    if r < 0.12:
+        return gated_core(rng, prefix)
     if r < 0.4:
         c = rng.choice(common.cores()[rng.choice(["maa", "multi"])])
         cn = [f"{prefix}{i}" for i in range(c["n"])]
@@ -66,7 +82,10 @@ def gen_case(rng, tier, k):
         cfg = {}
         if rng.random() < 0.4:
             cfg = {"retained_set_optimization_threshold": rng.choice([0, 1, 2, 3]), "minimum_simulation_budget": rng.choice([1, 1000])}
-        return {"kind": "product", "a": small_net(rng, "a"), "b": small_net(rng, "b"), "strategy": rng.choice(STRATS), "cfg": cfg}
+        case = {"kind": "product", "a": small_net(rng, "a"), "b": small_net(rng, "b"), "strategy": rng.choice(STRATS), "cfg": cfg}
+        if "ax, ay" in case["a"] and rng.random() < 0.6:
+            case["strategy"] = "scc"      # nested motif-avoidant attractor inside one source component
+        return case
     if r < 0.93:
         ninp = rng.randint(1, 3)
         body = common.g_mixed(rng, nmax=4 if tier == "quick" else 5, p_core=0.3)
@@ -165,7 +184,10 @@ def run_product(case):
             for vs in sd.node_attractor_sets(i, compute=True):
                 got_att.append(vertex_set_states(sd, ni, vs))
         got_att.sort()
-        if got_att != want_att and not (case["strategy"] == "scc" and (oa.maa or ob.maa)):
+        if case["strategy"] == "scc" and (oa.maa or ob.maa):
+            # known finding F6: source-SCC expansion can report a motif-avoidant attractor twice; nothing else is tolerated
+            got_att = [list(x) for x in sorted(set(tuple(a) for a in got_att))]
+        if got_att != want_att:
             fails.append({"kind": "product-attractors", "sig": {"strategy": case["strategy"]}, "detail":
                           f"union has {len(got_att)} attractors (sizes {sorted(len(a) for a in got_att)[:8]}), products: {len(want_att)} (sizes {sorted(len(a) for a in want_att)[:8]})"})
     nontriv = (len(oa.atts) >= 2 and len(ob.atts) >= 2) or any(len(a) > 1 for a in want_att)
